@@ -150,13 +150,28 @@ Proof.
   rewrite !forallb_app, A, IH by auto. reflexivity.
 Qed.
 
+(* a body without hash is read alike by both shapes of isenum() *)
+Lemma drop_hash_comments_id s : mem HASH s = false -> drop_hash_comments false s = s.
+Proof.
+  induction s as [|c s IH]; intros H; [reflexivity|]. unfold mem in H. cbn [existsb] in H. apply orb_false_iff in H as [Hc Hs].
+  cbn [drop_hash_comments]. rewrite N.eqb_sym in Hc. rewrite Hc. f_equal. now apply IH.
+Qed.
+Lemma enum_body_of_id strips s : mem HASH s = false -> enum_body_of strips s = s.
+Proof. intros H. unfold enum_body_of. destruct strips; [now apply drop_hash_comments_id|reflexivity]. Qed.
+
 Theorem enum_entry_rendered labels name : labels_ok labels = true -> labels <> [] -> name <> [] -> forallb is_word name = true ->
   enum_entry (enum_text labels name) = Some (name, labels).
 Proof.
-  intros Hl Hne Hn Hw. unfold enum_entry, enum_text.
+  intros Hl Hne Hn Hw. unfold enum_entry, enum_entry_g, enum_text.
   pose proof (match_typedef_text KW_ENUM (NL :: unlines (elines labels)) name [] (or_intror eq_refl)) as M.
   rewrite app_nil_r in M. rewrite M; auto; [|discriminate|].
-  - f_equal. f_equal. rewrite unlines_elines by auto. unfold strip.
+  - f_equal. f_equal. rewrite unlines_elines by auto.
+    rewrite enum_body_of_id.
+    2:{ change (NL :: S_INDENT ++ stext labels ++ [NL]) with ((NL :: S_INDENT) ++ stext labels ++ [NL]).
+        rewrite !mem_app. cbn [mem existsb]. change (HASH =? NL) with false. cbn [orb]. rewrite orb_false_r.
+        apply mem_false_forallb. eapply forallb_impl; [|apply (stext_chars labels Hl)].
+        intros x Hx. apply negb_true_iff. apply N.eqb_neq. intros ->. discriminate. }
+    unfold strip.
     replace (NL :: S_INDENT ++ stext labels ++ [NL]) with ((NL :: S_INDENT ++ stext labels) ++ [NL])
       by (cbn [app]; now rewrite <- app_assoc).
     rewrite rstrip_app_ws by reflexivity. rewrite rstrip_id.
